@@ -170,3 +170,15 @@ def canary_empty_string_is_truthy(s):
     if s:
         return True
     return False
+
+
+# --- str.format == f-string ---------------------------------------------------------------------------------------
+@lemma(dict(s=Str(), t=Str()), prop=["ENGINE"])
+def format_is_the_fstring(s, t):
+    return "({}) U ({})".format(s, t) == f"({s}) U ({t})" and "{1}-{0}".format(s, t) == t + "-" + s \
+        and "[{key}]".format(key=s) == "[" + s + "]"
+
+
+@lemma(dict(s=Str(), t=Str()), prop=["ENGINE"], canary=True)
+def canary_format_swaps_its_arguments(s, t):
+    return "{} {}".format(s, t) == t + " " + s
